@@ -65,6 +65,15 @@ pub fn check(q: &DpQuery, w: &DpWorld, strategy: Strategy, rep: &mut Report) {
             if rep.notes.len() < 6 {
                 rep.notes.push(format!("execution error: {} on {}", e.chars().take(300).collect::<String>(), sql));
             }
+            if e.contains("no such column") {
+                // the rewriting refers to a column its own inputs do not have: no tracked rows at all
+                rep.eval();
+                rep.violation(
+                    format!("C05|rewritten-relation-refers-to-a-missing-column|{}{}", q.features.first().cloned().unwrap_or("plain"), if w.weighted { "|weighted" } else { "" }),
+                    format!("the engine rejects the privacy-unit-preserving rewriting: {}", e.chars().take(200).collect::<String>()),
+                    json!({"world": w.cat.to_json(4), "weighted_privacy_unit": w.weighted, "query": sql, "strategy": format!("{:?}", strategy), "rewritten": rendered}),
+                );
+            }
             return;
         }
     };
@@ -110,15 +119,20 @@ pub fn check(q: &DpQuery, w: &DpWorld, strategy: Strategy, rep: &mut Report) {
                "rendered": rendered, "tracked_result_on_D": full.to_json(40), "detail": extra})
     };
     // (1) every row carries a unit and a weight
-    for r in full.rows.iter() {
-        if r[pi].is_null() || r[wi].is_null() {
-            rep.violation(
-                format!("C05|null-privacy-unit|{}", feature),
-                format!("a tracked row has a NULL privacy unit or weight: {:?}", r.iter().map(|v| v.render()).collect::<Vec<_>>()),
-                case(json!({})),
-            );
-            return;
-        }
+    // (a NULL unit and a NULL weight are different defects: rows without unit first)
+    let null_unit = full.rows.iter().find(|r| r[pi].is_null());
+    let null_weight = full.rows.iter().find(|r| r[wi].is_null());
+    if let Some(r) = null_unit.or(null_weight) {
+        rep.violation(
+            format!("C05|{}|{}", if null_unit.is_some() { "null-privacy-unit" } else { "null-weight" }, feature),
+            format!(
+                "a tracked row has a NULL {}: {:?}",
+                if null_unit.is_some() { "privacy unit" } else { "weight (its privacy unit is not NULL)" },
+                r.iter().map(|v| v.render()).collect::<Vec<_>>()
+            ),
+            case(json!({})),
+        );
+        return;
     }
     if !full.rows.is_empty() {
         rep.nontrivial(hash64(&(sql.clone(), format!("{:?}", strategy), w.hash_pu, w.cat.tables.iter().map(|t| t.rows.len()).collect::<Vec<_>>())));
